@@ -6,25 +6,25 @@ from props import PROPS
 ROOT = os.path.dirname(os.path.dirname(os.path.abspath(__file__)))
 props = [json.loads(l) for l in open(os.path.join(ROOT, 'properties.jsonl'))]
 LEVEL = {
- 'C01': ('Theorems for every invariant state and every issue history of one archetype storage (accept iff stored; stale rejected; ghost bound preserved by create/grow/destroy) over a model whose arithmetic, guards and effect order are re-translated from storage.rs/slot.rs/version.rs/entity.rs each run; differential runs of every lookup path at world and archetype level against the model; specification oracle on the implementation traces',
-         'storage-level theorems; the lift to whole-world histories (induction over the op list) is validated by the correspondence, not yet proved'),
+ 'C01': ('Theorems for every invariant state and every issue history of one archetype storage (accept iff stored; stale rejected; ghost bound preserved by create/grow/destroy) over a model whose arithmetic, guards and effect order are re-translated from storage.rs/slot.rs/version.rs/entity.rs each run; differential runs of every lookup path at world and archetype level against the model; specification oracle on the implementation traces; whole-history theorems by induction over the run language (every operation moves every storage by elementary transitions; a handle that left the dense array is rejected forever; accepted iff stored), with the boolean side condition evaluated on every history run',
+         'wrapping_version and generation-lowering presets are excluded by hypothesis (counted in the evidence); the hand-written part of the model is tied by differential execution'),
  'C02': ('Theorems that create/destroy/write/grow/clone change the (handle, row) abstraction exactly as specified, for any number of columns; every read and write path of the implementation compared with the model on generated histories (1..16 columns, ZST, aligned, heap-owning components)',
          'byte layout and alignment of realloc are not modelled (element granularity)'),
- 'C03': ('Totality theorems: every 32-bit key against every invariant state gives acceptance of a stored entity, absence or the documented debug assertion, never the model\'s UB outcome; acceptance with a matching archetype id implies bit-identity; forged-handle stream aimed by dumps; known finding F3 stated as a _refuted theorem and reported',
+ 'C03': ('Totality theorems: every 32-bit key against every invariant state gives acceptance of a stored entity, absence or the documented debug assertion, never the model\'s UB outcome; acceptance with a matching archetype id implies bit-identity; run-level: any raw pair with any typing through destroy, every lookup path and to_direct on any reachable state is never UB; forged-handle stream aimed by dumps; known finding F3 stated as a _refuted theorem and reported',
          'memory safety is at element granularity of the model; std::alloc trusted'),
  'C04': ('Theorems that a value enters a cell exactly once (create), leaves only by being handed back (destroy, refused create_within_capacity) or by the storage drop, which takes every initialised cell exactly once, that every column holds exactly len cells and that clone makes one copy per cell; instrumented components with a live-identity registry (Drop/Clone, incl. a zero-sized Drop type) compared with the model\'s accounting after every op and at world drop',
          'dropping is a count/identity abstraction in the model (lists cannot alias); leaks after a panicking Clone/Drop belong to C10'),
  'C05': ('Theorems over the model of bind_query_params/bind_one_of: for every world and every well-formed parameter list the emitted arms are exactly the archetypes satisfying the declarative reading, each parameter bound to its own column, ambiguity and no-match errors exactly as stated; the macro crate\'s own modules driven as a library on generated declarations and queries and compared with the model and with the declarative oracle; run-time half (find on an unmatched archetype returns None) through the storage harness',
          'the binding model is hand-written and tied by differential execution; rustc\'s handling of the emitted arms is exercised by the storage harness worlds only'),
- 'C06': ('Theorems that one pass presents exactly len items, item i being the handle and row of dense position i, with pairwise distinct handles, and that Break returns from the single closure wrapping all archetype loops (translated); every iteration path of the implementation (five query macros, iter/iter_mut, slices, entities) compared with the model including Break at every ordinal',
-         'the query loops are modelled and tied by the correspondence; their inductive characterisation is not yet proved'),
- 'C07': ('Storage-level theorems behind the reverse loop (positions below the removed one untouched, the relocated entity comes from the end, the destroyed handle is stored nowhere, the handed-out direct handle is current) plus the translated position of the version read; decision strings over {Continue, Break, ContinueDestroy, BreakDestroy, panic} on the implementation compared with the model and the specification oracle',
-         'the loop itself (World.iterd_arch) is modelled and tied by stream S6; its induction is not yet proved (partial)'),
- 'C08': ('Freshness theorem from the ghost generation bound, checked-add overflow theorems over the translated version.rs, injectivity of key packing; histories crossing 2^32 through the preset hook',
+ 'C06': ('Theorems that one pass presents exactly len items, item i being the handle and row of dense position i, with pairwise distinct handles, and that Break returns from the single closure wrapping all archetype loops (translated); every iteration path of the implementation (five query macros, iter/iter_mut, slices, entities) compared with the model including Break at every ordinal; closed form of ecs_iter!/ecs_iter_borrow! over a whole world proved by induction (the calls are a prefix of one record per live entity of each matched archetype, ending exactly at the first break or panic)',
+         'the loop model (World.iter_arch/iter_world) is hand-written and tied by the correspondence'),
+ 'C07': ('Storage-level theorems behind the reverse loop (positions below the removed one untouched, the relocated entity comes from the end, the destroyed handle is stored nowhere, the handed-out direct handle is current) plus the translated position of the version read; decision strings over {Continue, Break, ContinueDestroy, BreakDestroy, panic} on the implementation compared with the model and the specification oracle; the loop proved by induction for every decision list (distinct positions in reverse, original row and current accepted direct handle at each visit, stops at the first Break/BreakDestroy, final rows = original rows not both visited and flagged; never UB and invariant also when left by a panic)',
+         'the loop model (World.iterd_arch) is hand-written and tied by stream S6; exact surviving rows after a panic are not characterised'),
+ 'C08': ('Freshness theorem from the ghost generation bound, checked-add overflow theorems over the translated version.rs, injectivity of key packing; histories crossing 2^32 through the preset hook; whole-history theorem: a create never returns a handle stored in that archetype of that world at any earlier point (ghost history with pairwise distinct issued handles, by induction over the run language)',
          'wrapping_version reuse after 2^32-1 releases is the documented exception (C08_wrap_reissues)'),
  'C09': ('Theorems: accepted direct handle designates its dense position with the current version; accepted at issue; survives creates; rejected after any removal (version strictly changes); to_direct validates; the two repaired defects F1/F2 are pinned by translated code facts',
          'storage level; query-issued handles are covered by the model of the macros\' run-time meaning and the correspondence'),
- 'C10': ('Theorems that every outcome of create and destroy is an invariant state or the unchanged state (capacity overflow, both generation overflows, debug assertions), resting on the effect order translated from force_destroy this run; fault-injection stream (closure, Clone, Drop panics, overflow via presets) with registry accounting',
+ 'C10': ('Theorems that every outcome of create and destroy is an invariant state or the unchanged state (capacity overflow, both generation overflows, debug assertions), resting on the effect order translated from force_destroy this run; fault-injection stream (closure, Clone, Drop panics, overflow via presets) with registry accounting; run-level theorem: every state of every history of the run language, including those left by panicking operations, satisfies the invariant of every storage of every world and no step is UB (side condition evaluated on every history run)',
          'panics inside user closures/Clone/Drop are modelled as oracle decisions; abort-on-double-panic is not modelled'),
  'C11': ('Theorems that the model\'s guard-list rule is exactly RefCell\'s flag discipline (panic iff refused, independence of other cells, shared/shared, release restores, closure guards end with the call, clone rule); the table of which cells each runtime-borrowed API acquires and for how long is compared with the implementation on the whole finite (outer, inner) access matrix (exhaustive) and on random nestings to depth 3 with panics',
          'std::cell::RefCell itself is trusted; the acquisition table is hand-written and tied by the exhaustive differential run'),
